@@ -274,6 +274,7 @@ static void configure_run(uint64_t run_index) {
   shim_reset();
   arena_reset();
   if (fdlayer_reset) fdlayer_reset();
+  if (uring_reset) uring_reset();
 }
 
 static void body_tramp(void*) {
@@ -316,6 +317,7 @@ static void run_one(uint64_t run_index) {
   int n = R.nthreads;
   // end-of-run checks (still "active" so that reports work; executed on the driver thread)
   if (fdlayer_end_of_run) fdlayer_end_of_run();
+  if (uring_end_of_run) uring_end_of_run();
   char desc[400];
   size_t leaks = arena_live_library_blocks(desc, sizeof desc);
   R.active = false;
